@@ -166,6 +166,10 @@ func cmdVC(args []string) {
 				if r.O.ExpectSat {
 					ok = r.R.Status != "unsat"
 				}
+				if r.O.Kind == "vacuity-ret" && !ok {
+					fmt.Printf("   NOTE q%04d %-70s unreachable under the accumulated assumptions (%s)\n", i, r.O.Name, r.O.SrcLine)
+					continue
+				}
 				mark := "ok  "
 				if !ok {
 					mark = "FAIL"
